@@ -17,7 +17,7 @@ import io
 from harness import core, histcheck, isoapi, isotie
 from harness.props import c01
 
-LEAN_MODULES = ['Pycdlib.Props.C04', 'Pycdlib.Props.Tie', 'Pycdlib.Props.C04PathTable', 'Pycdlib.Props.TiePack', 'Pycdlib.Props.C04Iso']
+LEAN_MODULES = ['Pycdlib.Props.C04', 'Pycdlib.Props.Tie', 'Pycdlib.Props.C04PathTable', 'Pycdlib.Props.TiePack', 'Pycdlib.Props.C04Iso', 'Pycdlib.Props.TieGrow']
 THEOREMS = ['Pycdlib.place_disjoint', 'Pycdlib.place_in_bounds', 'Pycdlib.place_end_exact', 'Pycdlib.space_delta_exact',
             'Pycdlib.sectors_fit', 'Pycdlib.insert_grows_le_one', 'Pycdlib.grow_keeps_fit', 'Pycdlib.shrink_keeps_fit',
             'Pycdlib.nfScan_append', 'Pycdlib.writer_matches_cache', 'Pycdlib.writer_no_straddle', 'Pycdlib.ceiling_div_tie',
@@ -25,7 +25,7 @@ THEOREMS = ['Pycdlib.place_disjoint', 'Pycdlib.place_in_bounds', 'Pycdlib.place_
             'Pycdlib.PathTable.space_size_tie', 'Pycdlib.PathTable.addAll_independent_of_copies',
             'Pycdlib.dr_recalc_tie', 'Pycdlib.dr_recalc_init_tie',
             'Pycdlib.Iso.space_exact', 'Pycdlib.Iso.dirs_covered', 'Pycdlib.Iso.path_tables_exact', 'Pycdlib.Iso.layout_sound',
-            'Pycdlib.Iso.step_inv', 'Pycdlib.Iso.invB_iff', 'Pycdlib.Iso.init0_inv']
+            'Pycdlib.Iso.step_inv', 'Pycdlib.Iso.invB_iff', 'Pycdlib.Iso.init0_inv', 'Pycdlib.dr_grow_tie', 'Pycdlib.dr_shrink_tie']
 PARTIAL = {
     'space_exact_partial': 'Iso.space_exact proves declared size = from-scratch layout over EVERY history of the bookkeeping machine '
     '(directories of both hierarchies, path tables, contents with hard links, continuation blocks as a count, PVD copies). Outside the '
@@ -39,7 +39,7 @@ LEVEL_TEXT = ('Lean 4 theorems for all inputs: sequential placement is pairwise 
               'next-fit packing grows by at most one sector per inserted record (<= half a sector) so directory lengths maintained '
               'by deltas always cover their records; incremental cache = from-scratch packing; ceiling_div tie regenerated from '
               'utils.py; the packing loop of dr.py and the path-table / space-size accounting of headervd.py are regenerated from the source on every '
-              'run and proved equal to the model (dr_recalc_tie, add/remove_ptr_size_tie), and the path-table reservation is proved exact after '
+              'run and proved equal to the model (dr_recalc_tie, add/remove_ptr_size_tie), and so are the growth rule of _add_child and the shrink rule of remove_child (dr_grow_tie, dr_shrink_tie), and the path-table reservation is proved exact after '
               'any history (run_exact). Iso.space_exact / dirs_covered / path_tables_exact / layout_sound: over every history of public edits (ISO9660 + Joliet + Rock Ridge records, '
               'hard links, PVD copies) the declared size kept by deltas equals the from-scratch layout, which is pairwise disjoint and ends exactly there; tied per edit by predicting '
               'every data_length, path table reservation and the volume size of the real object (isorun). UDF / El Torito / isohybrid parts of the layout are decided per history by the allocation oracle.')
